@@ -106,6 +106,9 @@ func switchToParentThread(L *LState, nargs int, haserror bool, kill bool) {
 		top := L.reg.Top()
 		L.reg.FillNil(top, nret)
 		L.reg.top = top
+		// ... and they stay registers of the pending call's caller, also when
+		// the resume supplies fewer values than that
+		L.resumeTop = top + nret
 	}
 }
 
